@@ -306,6 +306,8 @@ class Runner:
             if "dir" in op:
                 dn, files = op["dir"]
                 src.append(self.sc.source_dir(dn, {k: (CONTENTS[v] if isinstance(v, int) else v) for k, v in files.items()}))
+            if op.get("missing"):
+                src.append(os.path.join(self.sc.src, "nope", "missing.txt"))
             return dict(cmd="cp_ext", h=h, id=op["id"], src=src, dst=op["dst"], recursive=op.get("recursive", False))
         if o == "mv_ext":
             src = []
@@ -314,6 +316,8 @@ class Runner:
             if "dir" in op:
                 dn, files = op["dir"]
                 src.append(self.sc.source_dir(dn, {k: (CONTENTS[v] if isinstance(v, int) else v) for k, v in files.items()}))
+            if op.get("missing"):
+                src.append(os.path.join(self.sc.src, "nope", "missing.txt"))
             return dict(cmd="mv_ext", h=h, id=op["id"], src=src, dst=op["dst"])
         if o == "cp_int":
             return dict(cmd="cp_int", h=h, id=op["id"], version=op.get("version"), src=op["src"], dst=op["dst"],
